@@ -199,7 +199,7 @@ theorem getD_pos (l : List Nat) (d : Nat) (h : ∀ x ∈ l, 0 < x) : 0 < l[d]?.g
 theorem get_changed_class_eq [DecidableEq α] (null : α) (e : DExt κ α) (sd : Nat)
     (h3 : 3 ≤ e.shape.length) (h5 : e.shape.length ≤ 5) (hpos : ∀ x ∈ e.shape, 0 < x) (hsd : sd < e.shape.length)
     (ks : KeyState α) (hks : ∀ c v, ks = some (c, v) → c ∈ validClasses e.shp ∧ mult e.shp c ≠ 0) (new : Cls) :
-    Py.get_changed_class e.shape (e.sliceDim.map fun d => e.shape.getD d 1) (valuesOf null ks) (ks.map (·.1)) new sd =
+    Py.get_changed_class e.shape (e.sliceDim.map fun d => e.shape.getD d 1) (valuesOf null ks) (ks.map (·.1)) new (some sd) =
       errV (getChangedK null (e.shp (some sd)) ks new) := by
   obtain ⟨shape, sdim, ht, hvv, ents⟩ := e
   match shape, h3, h5 with
@@ -213,13 +213,13 @@ theorem get_changed_class_eq [DecidableEq α] (null : α) (e : DExt κ α) (sd :
     | none =>
       cases sdim <;> cases new <;>
       simp [Py.get_changed_class, getChangedK, valuesOf, preserving, Py.get_multiplicity, Py.get_valid_classes, Gen.classifications, Cls.base, Cls.sub, mult,
-        DExt.shp, validClasses, errV, pyFloorDiv, foldl_range_tile, foldl_append_flatMap, flatten_map_const_range, Nat.mul_eq_zero, repeatEach, perSlice, hg, hS, Functor.map, Except.map, List.flatMap] <;> rfl
+        DExt.shp, validClasses, errV, pyFloorDiv, pyShapeAt, foldl_range_tile, foldl_append_flatMap, flatten_map_const_range, Nat.mul_eq_zero, repeatEach, perSlice, hg, hS, Functor.map, Except.map, List.flatMap] <;> rfl
     | some cv =>
       obtain ⟨c, v⟩ := cv
       have hk := hks c v rfl
       cases sdim <;> cases c <;> simp [validClasses, DExt.shp, mult] at hk <;> cases new <;>
       simp [Py.get_changed_class, getChangedK, valuesOf, preserving, Py.get_multiplicity, Py.get_valid_classes, Gen.classifications, Cls.base, Cls.sub, mult,
-        DExt.shp, validClasses, errV, pyFloorDiv, foldl_range_tile, foldl_append_flatMap, flatten_map_const_range, Nat.mul_eq_zero, repeatEach, perSlice, hg, hk, hS, Functor.map, Except.map, List.flatMap] <;> rfl
+        DExt.shp, validClasses, errV, pyFloorDiv, pyShapeAt, foldl_range_tile, foldl_append_flatMap, flatten_map_const_range, Nat.mul_eq_zero, repeatEach, perSlice, hg, hk, hS, Functor.map, Except.map, List.flatMap] <;> rfl
   | [a, b, c', d], _, _ =>
     have hg := getD_indep [a, b, c', d] sd hsd 0 1
     have hd0 : (d = 0) = False := by
@@ -233,13 +233,13 @@ theorem get_changed_class_eq [DecidableEq α] (null : α) (e : DExt κ α) (sd :
     | none =>
       cases sdim <;> cases new <;>
       simp [Py.get_changed_class, getChangedK, valuesOf, preserving, Py.get_multiplicity, Py.get_valid_classes, Gen.classifications, Cls.base, Cls.sub, mult,
-        DExt.shp, validClasses, errV, pyFloorDiv, foldl_range_tile, foldl_append_flatMap, flatten_map_const_range, Nat.mul_eq_zero, repeatEach, perSlice, hg, hS, hd0, Functor.map, Except.map, List.flatMap] <;> rfl
+        DExt.shp, validClasses, errV, pyFloorDiv, pyShapeAt, foldl_range_tile, foldl_append_flatMap, flatten_map_const_range, Nat.mul_eq_zero, repeatEach, perSlice, hg, hS, hd0, Functor.map, Except.map, List.flatMap] <;> rfl
     | some cv =>
       obtain ⟨c, v⟩ := cv
       have hk := hks c v rfl
       cases sdim <;> cases c <;> simp [validClasses, DExt.shp, mult] at hk <;> cases new <;>
       simp [Py.get_changed_class, getChangedK, valuesOf, preserving, Py.get_multiplicity, Py.get_valid_classes, Gen.classifications, Cls.base, Cls.sub, mult,
-        DExt.shp, validClasses, errV, pyFloorDiv, foldl_range_tile, foldl_append_flatMap, flatten_map_const_range, Nat.mul_eq_zero, repeatEach, perSlice, hg, hk, hS, hd0, Functor.map, Except.map, List.flatMap] <;> rfl
+        DExt.shp, validClasses, errV, pyFloorDiv, pyShapeAt, foldl_range_tile, foldl_append_flatMap, flatten_map_const_range, Nat.mul_eq_zero, repeatEach, perSlice, hg, hk, hS, hd0, Functor.map, Except.map, List.flatMap] <;> rfl
   | [a, b, c', d, f], _, _ =>
     by_cases hd : d = 1
     ·
@@ -258,13 +258,13 @@ theorem get_changed_class_eq [DecidableEq α] (null : α) (e : DExt κ α) (sd :
       | none =>
         cases sdim <;> cases new <;>
         simp [Py.get_changed_class, getChangedK, valuesOf, preserving, Py.get_multiplicity, Py.get_valid_classes, Gen.classifications, Cls.base, Cls.sub, mult,
-          DExt.shp, validClasses, errV, pyFloorDiv, foldl_range_tile, foldl_append_flatMap, flatten_map_const_range, Nat.mul_eq_zero, repeatEach, perSlice, hg, hS, hd, hd0, hf0, Functor.map, Except.map, List.flatMap] <;> rfl
+          DExt.shp, validClasses, errV, pyFloorDiv, pyShapeAt, foldl_range_tile, foldl_append_flatMap, flatten_map_const_range, Nat.mul_eq_zero, repeatEach, perSlice, hg, hS, hd, hd0, hf0, Functor.map, Except.map, List.flatMap] <;> rfl
       | some cv =>
         obtain ⟨c, v⟩ := cv
         have hk := hks c v rfl
         cases sdim <;> cases c <;> simp [validClasses, DExt.shp, mult, hd] at hk <;> cases new <;>
         simp [Py.get_changed_class, getChangedK, valuesOf, preserving, Py.get_multiplicity, Py.get_valid_classes, Gen.classifications, Cls.base, Cls.sub, mult,
-          DExt.shp, validClasses, errV, pyFloorDiv, foldl_range_tile, foldl_append_flatMap, flatten_map_const_range, Nat.mul_eq_zero, repeatEach, perSlice, hg, hk, hS, hd, hd0, hf0, Functor.map, Except.map, List.flatMap] <;> rfl
+          DExt.shp, validClasses, errV, pyFloorDiv, pyShapeAt, foldl_range_tile, foldl_append_flatMap, flatten_map_const_range, Nat.mul_eq_zero, repeatEach, perSlice, hg, hk, hS, hd, hd0, hf0, Functor.map, Except.map, List.flatMap] <;> rfl
     ·
       have hg := getD_indep [a, b, c', d, f] sd hsd 0 1
       have hd0 : (d = 0) = False := by
@@ -281,13 +281,107 @@ theorem get_changed_class_eq [DecidableEq α] (null : α) (e : DExt κ α) (sd :
       | none =>
         cases sdim <;> cases new <;>
         simp [Py.get_changed_class, getChangedK, valuesOf, preserving, Py.get_multiplicity, Py.get_valid_classes, Gen.classifications, Cls.base, Cls.sub, mult,
-          DExt.shp, validClasses, errV, pyFloorDiv, foldl_range_tile, foldl_append_flatMap, flatten_map_const_range, Nat.mul_eq_zero, repeatEach, perSlice, hg, hS, hd, hd0, hf0, Functor.map, Except.map, List.flatMap] <;> rfl
+          DExt.shp, validClasses, errV, pyFloorDiv, pyShapeAt, foldl_range_tile, foldl_append_flatMap, flatten_map_const_range, Nat.mul_eq_zero, repeatEach, perSlice, hg, hS, hd, hd0, hf0, Functor.map, Except.map, List.flatMap] <;> rfl
       | some cv =>
         obtain ⟨c, v⟩ := cv
         have hk := hks c v rfl
         cases sdim <;> cases c <;> simp [validClasses, DExt.shp, mult, hd] at hk <;> cases new <;>
         simp [Py.get_changed_class, getChangedK, valuesOf, preserving, Py.get_multiplicity, Py.get_valid_classes, Gen.classifications, Cls.base, Cls.sub, mult,
-          DExt.shp, validClasses, errV, pyFloorDiv, foldl_range_tile, foldl_append_flatMap, flatten_map_const_range, Nat.mul_eq_zero, repeatEach, perSlice, hg, hk, hS, hd, hd0, hf0, Functor.map, Except.map, List.flatMap] <;> rfl
+          DExt.shp, validClasses, errV, pyFloorDiv, pyShapeAt, foldl_range_tile, foldl_append_flatMap, flatten_map_const_range, Nat.mul_eq_zero, repeatEach, perSlice, hg, hk, hS, hd, hd0, hf0, Functor.map, Except.map, List.flatMap] <;> rfl
+  | [], h3, _ | [_], h3, _ | [_, _], h3, _ => simp at h3
+  | _ :: _ :: _ :: _ :: _ :: _ :: _, _, h5 => simp at h5
+
+/-- … and without a `slice_dim` argument (as `_change_class` calls it), whenever the extension has a slice dimension of its own
+    or the target class is not per slice (otherwise Python reads `shape[None]`: TypeError) -/
+theorem get_changed_class_none_eq [DecidableEq α] (null : α) (e : DExt κ α)
+    (h3 : 3 ≤ e.shape.length) (h5 : e.shape.length ≤ 5) (hpos : ∀ x ∈ e.shape, 0 < x)
+    (ks : KeyState α) (hks : ∀ c v, ks = some (c, v) → c ∈ validClasses e.shp ∧ mult e.shp c ≠ 0) (new : Cls)
+    (hn : e.sliceDim.isSome = true ∨ perSlice new = false) :
+    Py.get_changed_class e.shape (e.sliceDim.map fun d => e.shape.getD d 1) (valuesOf null ks) (ks.map (·.1)) new none =
+      errV (getChangedK null (e.shp none) ks new) := by
+  obtain ⟨shape, sdim, ht, hvv, ents⟩ := e
+  match shape, h3, h5 with
+  | [a, b, c'], _, _ =>
+    have hS : ∀ i : Nat, ([a, b, c'][i]?.getD 1 = 0) = False := by
+      intro i
+      have := getD_pos [a, b, c'] i hpos
+      simp; omega
+    cases ks with
+    | none =>
+      cases sdim <;> cases new <;> simp [perSlice] at hn <;>
+      simp [Py.get_changed_class, getChangedK, valuesOf, preserving, Py.get_multiplicity, Py.get_valid_classes, Gen.classifications, Cls.base, Cls.sub, mult,
+        DExt.shp, validClasses, errV, pyFloorDiv, pyShapeAt, foldl_range_tile, foldl_append_flatMap, flatten_map_const_range, Nat.mul_eq_zero, repeatEach, perSlice, hS, Functor.map, Except.map, List.flatMap] <;> rfl
+    | some cv =>
+      obtain ⟨c, v⟩ := cv
+      have hk := hks c v rfl
+      cases sdim <;> cases c <;> simp [validClasses, DExt.shp, mult] at hk <;> cases new <;> simp [perSlice] at hn <;>
+      simp [Py.get_changed_class, getChangedK, valuesOf, preserving, Py.get_multiplicity, Py.get_valid_classes, Gen.classifications, Cls.base, Cls.sub, mult,
+        DExt.shp, validClasses, errV, pyFloorDiv, pyShapeAt, foldl_range_tile, foldl_append_flatMap, flatten_map_const_range, Nat.mul_eq_zero, repeatEach, perSlice, hk, hS, Functor.map, Except.map, List.flatMap] <;> rfl
+  | [a, b, c', d], _, _ =>
+    have hd0 : (d = 0) = False := by
+      have := hpos d (by simp)
+      simp; omega
+    have hS : ∀ i : Nat, ([a, b, c', d][i]?.getD 1 = 0) = False := by
+      intro i
+      have := getD_pos [a, b, c', d] i hpos
+      simp; omega
+    cases ks with
+    | none =>
+      cases sdim <;> cases new <;> simp [perSlice] at hn <;>
+      simp [Py.get_changed_class, getChangedK, valuesOf, preserving, Py.get_multiplicity, Py.get_valid_classes, Gen.classifications, Cls.base, Cls.sub, mult,
+        DExt.shp, validClasses, errV, pyFloorDiv, pyShapeAt, foldl_range_tile, foldl_append_flatMap, flatten_map_const_range, Nat.mul_eq_zero, repeatEach, perSlice, hS, hd0, Functor.map, Except.map, List.flatMap] <;> rfl
+    | some cv =>
+      obtain ⟨c, v⟩ := cv
+      have hk := hks c v rfl
+      cases sdim <;> cases c <;> simp [validClasses, DExt.shp, mult] at hk <;> cases new <;> simp [perSlice] at hn <;>
+      simp [Py.get_changed_class, getChangedK, valuesOf, preserving, Py.get_multiplicity, Py.get_valid_classes, Gen.classifications, Cls.base, Cls.sub, mult,
+        DExt.shp, validClasses, errV, pyFloorDiv, pyShapeAt, foldl_range_tile, foldl_append_flatMap, flatten_map_const_range, Nat.mul_eq_zero, repeatEach, perSlice, hk, hS, hd0, Functor.map, Except.map, List.flatMap] <;> rfl
+  | [a, b, c', d, f], _, _ =>
+    by_cases hd : d = 1
+    ·
+      subst hd
+      have hd : (1 : Nat) = 1 := rfl
+      have hd0 : ((1:Nat) = 0) = False := by simp
+      have hf0 : (f = 0) = False := by
+        have := hpos f (by simp)
+        simp; omega
+      have hS : ∀ i : Nat, ([a, b, c', 1, f][i]?.getD 1 = 0) = False := by
+        intro i
+        have := getD_pos [a, b, c', 1, f] i hpos
+        simp; omega
+      cases ks with
+      | none =>
+        cases sdim <;> cases new <;> simp [perSlice] at hn <;>
+        simp [Py.get_changed_class, getChangedK, valuesOf, preserving, Py.get_multiplicity, Py.get_valid_classes, Gen.classifications, Cls.base, Cls.sub, mult,
+          DExt.shp, validClasses, errV, pyFloorDiv, pyShapeAt, foldl_range_tile, foldl_append_flatMap, flatten_map_const_range, Nat.mul_eq_zero, repeatEach, perSlice, hS, hd, hd0, hf0, Functor.map, Except.map, List.flatMap] <;> rfl
+      | some cv =>
+        obtain ⟨c, v⟩ := cv
+        have hk := hks c v rfl
+        cases sdim <;> cases c <;> simp [validClasses, DExt.shp, mult, hd] at hk <;> cases new <;> simp [perSlice] at hn <;>
+        simp [Py.get_changed_class, getChangedK, valuesOf, preserving, Py.get_multiplicity, Py.get_valid_classes, Gen.classifications, Cls.base, Cls.sub, mult,
+          DExt.shp, validClasses, errV, pyFloorDiv, pyShapeAt, foldl_range_tile, foldl_append_flatMap, flatten_map_const_range, Nat.mul_eq_zero, repeatEach, perSlice, hk, hS, hd, hd0, hf0, Functor.map, Except.map, List.flatMap] <;> rfl
+    ·
+      have hd0 : (d = 0) = False := by
+        have := hpos d (by simp)
+        simp; omega
+      have hf0 : (f = 0) = False := by
+        have := hpos f (by simp)
+        simp; omega
+      have hS : ∀ i : Nat, ([a, b, c', d, f][i]?.getD 1 = 0) = False := by
+        intro i
+        have := getD_pos [a, b, c', d, f] i hpos
+        simp; omega
+      cases ks with
+      | none =>
+        cases sdim <;> cases new <;> simp [perSlice] at hn <;>
+        simp [Py.get_changed_class, getChangedK, valuesOf, preserving, Py.get_multiplicity, Py.get_valid_classes, Gen.classifications, Cls.base, Cls.sub, mult,
+          DExt.shp, validClasses, errV, pyFloorDiv, pyShapeAt, foldl_range_tile, foldl_append_flatMap, flatten_map_const_range, Nat.mul_eq_zero, repeatEach, perSlice, hS, hd, hd0, hf0, Functor.map, Except.map, List.flatMap] <;> rfl
+      | some cv =>
+        obtain ⟨c, v⟩ := cv
+        have hk := hks c v rfl
+        cases sdim <;> cases c <;> simp [validClasses, DExt.shp, mult, hd] at hk <;> cases new <;> simp [perSlice] at hn <;>
+        simp [Py.get_changed_class, getChangedK, valuesOf, preserving, Py.get_multiplicity, Py.get_valid_classes, Gen.classifications, Cls.base, Cls.sub, mult,
+          DExt.shp, validClasses, errV, pyFloorDiv, pyShapeAt, foldl_range_tile, foldl_append_flatMap, flatten_map_const_range, Nat.mul_eq_zero, repeatEach, perSlice, hk, hS, hd, hd0, hf0, Functor.map, Except.map, List.flatMap] <;> rfl
   | [], h3, _ | [_], h3, _ | [_, _], h3, _ => simp at h3
   | _ :: _ :: _ :: _ :: _ :: _ :: _, _, h5 => simp at h5
 
@@ -299,9 +393,9 @@ example : Py.global_slice_subset [1, 1, 2, 2, 2] 2 [0, 1, 2, 3, 4, 5, 6, 7] "tim
 example : Py.copy_slice_vals [0, 1, 2, 3] 1 2 4 = .ok [1, 3, 1, 3] := by rfl
 example : Py.copy_slice_vals ([] : List Nat) 0 2 4 = .error PyErr.zeroDivision := by rfl
 example : Py.copy_slice_dest [gconst, gslices, vsamples, vslices] gslices = .ok vsamples := by rfl
-example : Py.get_changed_class [2, 2, 3, 2] (some 3) [7, 8] (some tsamples) gslices 2 = .ok [7, 7, 7, 8, 8, 8] := by rfl
-example : Py.get_changed_class [2, 2, 3, 2] (some 3) [7, 8, 9] (some tslices) gslices 2 = .ok [7, 8, 9, 7, 8, 9] := by rfl
-example : Py.get_changed_class [2, 2, 3, 2] none [5] none tslices 2 = .ok [5, 5, 5] := by rfl
-example : Py.get_changed_class [2, 2, 3, 2] (some 3) [7, 8] (some tsamples) tslices 2 = .error PyErr.valueError := by rfl
+example : Py.get_changed_class [2, 2, 3, 2] (some 3) [7, 8] (some tsamples) gslices (some 2) = .ok [7, 7, 7, 8, 8, 8] := by rfl
+example : Py.get_changed_class [2, 2, 3, 2] (some 3) [7, 8, 9] (some tslices) gslices (some 2) = .ok [7, 8, 9, 7, 8, 9] := by rfl
+example : Py.get_changed_class [2, 2, 3, 2] none [5] none tslices (some 2) = .ok [5, 5, 5] := by rfl
+example : Py.get_changed_class [2, 2, 3, 2] (some 3) [7, 8] (some tsamples) tslices (some 2) = .error PyErr.valueError := by rfl
 
 end Src
